@@ -51,6 +51,20 @@ void ParticleSet::resize(const std::size_t components, const std::size_t dim_lin
 }
 
 
+bool ParticleSet::augmentWithNoise(const Ref<const MatrixXd>& noise_covariance_matrix)
+{
+    if (!GaussianMixture::augmentWithNoise(noise_covariance_matrix))
+        return false;
+
+    /* Augment each particle state with zero noise components, as done for the means. */
+    const std::size_t dim_added = noise_covariance_matrix.rows();
+    state_.conservativeResize(dim, NoChange);
+    state_.bottomRows(dim_added) = MatrixXd::Zero(dim_added, components);
+
+    return true;
+}
+
+
 ParticleSet& ParticleSet::operator+=(const ParticleSet& rhs)
 {
     /* Should check whether (this->dim_linear == rhs.dim_linear) &&
